@@ -138,6 +138,63 @@ def ctor_copy_oracle(ctx, g):
         bad("IR(cfg=x) keeps a reference to the caller's collection (or shares it)")
 
 
+def aggregate_kinds_oracle(ctx, g):
+    """The aggregate iterators select by what a node IS: code_blocks the CodeBlocks (subclasses included), data_blocks the DataBlocks,
+    byte_blocks every byte block of the forest -- also one that is neither (the exported base class gtirb.ByteBlock, or a user
+    subclass of it) --, cfg_nodes the code blocks and proxies; each node once."""
+    class MyCode(g.CodeBlock):
+        pass
+
+    class MyData(g.DataBlock):
+        pass
+
+    class MyByte(g.ByteBlock):
+        pass
+    ir = g.IR()
+    mods = [g.Module(name="m%d" % i, ir=ir) for i in range(2)]
+    blocks = []
+    for mi, m in enumerate(mods):
+        g.ProxyBlock(module=m)
+        for si in range(2):
+            sec = g.Section(name="s%d" % si, module=m)
+            for bi_i in range(2):
+                bi = g.ByteInterval(address=0x1000 * (mi * 4 + si * 2 + bi_i), size=64, section=sec)
+                for k, cls in enumerate((g.CodeBlock, g.DataBlock, g.ByteBlock, MyCode, MyData, MyByte)):
+                    if (mi + si + bi_i + k) % 3 == 0 and k > 1:
+                        continue
+                    try:
+                        blocks.append(cls(size=4, offset=8 * k, byte_interval=bi))
+                    except Exception as e:  # noqa: BLE001
+                        ctx.count("aggregate_kinds:cannot_construct:" + cls.__name__)
+
+    def under(scope):
+        if isinstance(scope, g.Section):
+            return [b for b in blocks if b.section is scope]
+        if isinstance(scope, g.Module):
+            return [b for b in blocks if b.module is scope]
+        return list(blocks)
+    scopes = [ir] + mods + [s for m in mods for s in m.sections]
+    for scope in scopes:
+        mine = under(scope)
+        proxies = [p for m in (mods if scope is ir else [scope] if isinstance(scope, g.Module) else []) for p in m.proxies]
+        want = {
+            "byte_blocks": mine,
+            "code_blocks": [b for b in mine if isinstance(b, g.CodeBlock)],
+            "data_blocks": [b for b in mine if isinstance(b, g.DataBlock)],
+        }
+        if not isinstance(scope, g.Section):
+            want["cfg_nodes"] = [b for b in mine if isinstance(b, g.CodeBlock)] + proxies
+        for attr, w in want.items():
+            got = list(getattr(scope, attr))
+            ctx.case("aggregate-kinds:%s.%s" % (type(scope).__name__, attr), True)
+            if len(got) != len(set(map(id, got))) or set(map(id, got)) != set(map(id, w)):
+                extra = [type(x).__name__ for x in got if id(x) not in set(map(id, w))]
+                missing = [type(x).__name__ for x in w if id(x) not in set(map(id, got))]
+                ctx.add("oracle", "aggregate-kinds:" + attr, "%s.%s differs from what the forest implies: yields %d nodes, expected %d (extra kinds %s, missing kinds %s)"
+                        % (type(scope).__name__, attr, len(got), len(w), sorted(set(extra)), sorted(set(missing))),
+                        {"scope": type(scope).__name__, "attr": attr, "extra": extra, "missing": missing})
+
+
 def run(ctx):
     g = gtirb_from_repo.load()
     nh, ln = (60, 30) if ctx.quick else (1200, 60)
@@ -157,6 +214,7 @@ def run(ctx):
                     {"items": h.items[: idx + 1], "problems": bad[:10]})
     default_args_oracle(ctx, g)
     ctor_copy_oracle(ctx, g)
+    aggregate_kinds_oracle(ctx, g)
     for shape in ("setitem-same-list", "setslice-same-list"):
         w, _ = world.d4_probe(g, shape)
         bad = world.oracle_forest(w)
